@@ -265,6 +265,10 @@ class ConsumerMdib(mdibbase.MdibBase):
                 self._logger.info('found context states in GetMdib Result, will not call getContextStates')
 
             # process buffered notifications
+            # everything up to the loaded version is contained in the GetMdib response. Compare with that version, not with
+            # self.mdib_version: it advances while the buffer is replayed, and all reports of one transaction
+            # (e.g. description modification report + episodic context report) carry the same mdib version.
+            loaded_mdib_version = self.mdib_version
             with self._buffered_notifications_lock:
                 self._logger.debug('got _buffered_notifications_lock')
                 for buffered_report in self._buffered_notifications:
@@ -275,7 +279,7 @@ class ConsumerMdib(mdibbase.MdibBase):
                             buffered_report.mdib_version_group.sequence_id,
                         )
                         continue
-                    if buffered_report.mdib_version_group.mdib_version <= self.mdib_version:
+                    if buffered_report.mdib_version_group.mdib_version <= loaded_mdib_version:
                         self.logger.debug(
                             'older mdib version "%d"; ignore buffered report',
                             buffered_report.mdib_version_group.mdib_version,
